@@ -179,6 +179,8 @@ func (cw *concWorld) exec(c *ccall, park func()) string {
 		l.PushBackList(cw.l[li(f[2])])
 	case "pfl":
 		l.PushFrontList(cw.l[li(f[2])])
+	case "init":
+		l.Init()
 	case "len":
 		return "n;" + strconv.Itoa(l.Len())
 	case "vals":
@@ -274,7 +276,7 @@ func (w *linRef) apply(c *ccall) string {
 	switch f[0] {
 	case "ib", "ia":
 		args = f[3:]
-	case "pf", "pb", "pbl", "pfl", "len", "vals", "rvals", "fv", "bv":
+	case "pf", "pb", "pbl", "pfl", "len", "vals", "rvals", "fv", "bv", "init":
 		args = nil
 	}
 	var es []*list.Element
@@ -308,6 +310,8 @@ func (w *linRef) apply(c *ccall) string {
 		l.PushBackList(w.l[li(f[2])])
 	case "pfl":
 		l.PushFrontList(w.l[li(f[2])])
+	case "init":
+		l.Init()
 	case "len":
 		return "n;" + strconv.Itoa(l.Len())
 	case "vals":
@@ -520,6 +524,11 @@ func forcedWholePush(r *hx.Run, idx int, push, src, reader string, writer []stri
 	if src == "self" {
 		srcL = "A"
 	}
+	first := []string{push, "A", srcL}
+	if push != "pbl" && push != "pfl" {
+		first = strings.Split(push, ";") // any other mutating call, e.g. rm;A;4
+		mode = "forced-" + first[0]
+	}
 	parked, release := make(chan struct{}), make(chan struct{})
 	done := make(chan string, 8)
 	n := 0
@@ -536,8 +545,8 @@ func forcedWholePush(r *hx.Run, idx int, push, src, reader string, writer []stri
 
 		return
 	}
-	start([]string{push, "A", srcL}, nil)
-	time.Sleep(4 * time.Millisecond) // the push has done whatever it does before Lock() and waits for the mutex
+	start(first, nil)
+	time.Sleep(4 * time.Millisecond) // the call has done whatever it does before Lock() and waits for the mutex
 	start([]string{reader, "A"}, nil)
 	if writer != nil {
 		start(writer, nil)
@@ -550,7 +559,7 @@ func forcedWholePush(r *hx.Run, idx int, push, src, reader string, writer []stri
 	for _, f := range [][]string{{"vals", "A"}, {"rvals", "A"}, {"len", "A"}, {"vals", "B"}} {
 		cw.call(f, nil)
 	}
-	r.Count("lin:forced:" + push + ":" + src)
+	r.Count("lin:forced:" + first[0] + ":" + src)
 	cw.finish(mode, sig)
 	r.Sample(r.CaseLines())
 }
@@ -702,6 +711,22 @@ func concurrentHistories(r *hx.Run) {
 			}
 		}
 	}
+	// the same schedule for every other mutating method: it has to take effect as one operation too
+	for rep := 0; rep < reps; rep++ {
+		for _, first := range []string{"pb;A;50", "pf;A;50", "ia;A;50;4", "ib;A;50;4", "rm;A;4", "mf;A;5", "mb;A;3", "mvb;A;5;3",
+			"mva;A;3;5", "init;A"} {
+			for _, reader := range []string{"vals", "rvals"} {
+				ws := [][]string{nil, {"pb", "A", "99"}, {"rm", "A", "4"}}
+				if first == "init;A" {
+					ws = [][]string{nil, {"pb", "A", "99"}, {"pf", "A", "98"}} // no handle of A is used after its Init
+				}
+				for _, wr := range ws {
+					idx++
+					forcedWholePush(r, idx, first, "ts", reader, wr)
+				}
+			}
+		}
+	}
 	for i := 0; i < rounds; i++ {
 		_, seed := r.Rng.Fork()
 		idx++
@@ -751,7 +776,7 @@ func replayLin(r *hx.Run, setup [][]string, f []string) {
 		}
 		c := &ccall{inv: int64(atoi(p[0])), ret: int64(atoi(p[1]))}
 		nf := map[string]int{"pb": 3, "pf": 3, "ia": 4, "ib": 4, "rm": 3, "mf": 3, "mb": 3, "mvb": 4, "mva": 4, "pbl": 3, "pfl": 3,
-			"len": 2, "vals": 2, "rvals": 2, "fv": 2, "bv": 2}[p[2]]
+			"len": 2, "vals": 2, "rvals": 2, "fv": 2, "bv": 2, "init": 2}[p[2]]
 		if nf == 0 || len(p) < 2+nf+1 {
 			continue
 		}
